@@ -316,48 +316,121 @@ inductive Outcome where
   | outOfFuel
   /-- an include or import did not resolve; what `Process` then does is outside the C11 model -/
   | linkFailed (errs : List Err)
-  | done (res : Result) (leaves : List (String × String × Except Err DEntry))
+  | done (res : Result) (leaves : List (String × String × List (Option DEntry) × List Err))
 
-/-- The `type identityref` statement that decides the identity base of a top-level leaf or
-leaf-list `l` of `m`: written directly on it, or the first identityref member of its union, or
-the type of the top-level typedef of `m` that `l` names without prefix (`Type.resolve` finds that
-typedef first: it looks in the ancestors of the type statement before anything else). -/
-def identityrefTypeOf (m : Mod) (l : Stmt) : Option Stmt :=
-  match l.one? "type" with
+/-- The top-level typedef of `m` a type statement written in `m` names without prefix
+(`Type.resolve` looks in the ancestors of the type statement first; the generated schemas have
+typedefs at the top level only). -/
+def localTypedefType (m : Mod) (ty : Stmt) : Option Stmt :=
+  match (m.stmt.all "typedef").find? (·.arg == ty.arg) with
+  | some td => td.one? "type"
   | none => none
-  | some ty =>
-    if ty.arg == "identityref" then some ty
-    else if ty.arg == "union" then (ty.all "type").find? (·.arg == "identityref")
-    else
-      match (m.stmt.all "typedef").find? (·.arg == ty.arg) with
-      | some td =>
-        match td.one? "type" with
-        | some tt => if tt.arg == "identityref" then some tt else none
-        | none => none
-      | none => none
 
-/-- Top-level leaves and leaf-lists of every loaded module and submodule whose type is an
-identityref (directly, as union member, through a local typedef): (root `name@revision`, node name,
-resolution), as `ToEntry(root)` resolves them.  `Process` itself gets there (and reports their
-errors) only when `process` had no errors. -/
-def identityrefLeaves (r : Registry) (dict : Dict) : List (String × String × Except Err DEntry) :=
-  r.mods.flatMap fun m =>
-    (m.stmt.all "leaf" ++ m.stmt.all "leaf-list").filterMap fun l =>
-      (identityrefTypeOf m l).map fun ty => (m.fullName, l.arg, identityrefBase r dict m ty)
+/-- The identity errors `Type.resolve` returns for a type statement written in `m`: those of an
+identityref written directly, of the members of a union, of the typedef it names (`td.resolve`
+hands the errors of its own type on).  `fuel` bounds the length of typedef chains. -/
+def tyErrs (r : Registry) (dict : Dict) (m : Mod) : Nat → Stmt → List Err
+  | 0, _ => []
+  | fuel + 1, ty =>
+    if ty.arg == "identityref" then
+      match identityrefBase r dict m ty with
+      | .error e => [e]
+      | .ok _ => []
+    else if ty.arg == "union" then (ty.all "type").flatMap (tyErrs r dict m fuel)
+    else
+      match localTypedefType m ty with
+      | some tt => tyErrs r dict m fuel tt
+      | none => []
+
+/-- What a resolved type is, as far as identityrefs are concerned. -/
+inductive TyView where
+  /-- no identityref, no union -/
+  | other
+  /-- `Kind == Yidentityref`: the entry `IdentityBase` points at, or none (base did not resolve;
+  `YangType` is set before the base is looked up, so the type exists with a nil base) -/
+  | single (x : Option DEntry)
+  /-- `Kind == Yunion`: the members of kind identityref that are kept in `YangType.Type`, in order,
+  before de-duplication -/
+  | union (members : List (Option DEntry))
+  /-- resolved through a typedef that failed: `Typedef.resolve` returns the errors and sets no
+  `YangType`, so the type statement that names it gets none either -/
+  | failed
+
+/-- `Type.resolve` on a type statement written in `m`.  A union keeps a member when the member has
+a `YangType`: an identityref written directly always has one, a member that names a failing typedef
+has none and is left out. -/
+def tyView (r : Registry) (dict : Dict) (m : Mod) : Nat → Stmt → TyView
+  | 0, _ => .other
+  | fuel + 1, ty =>
+    if ty.arg == "identityref" then
+      match identityrefBase r dict m ty with
+      | .ok e => .single (some e)
+      | .error _ => .single none
+    else if ty.arg == "union" then
+      .union ((ty.all "type").filterMap fun mt =>
+        match tyView r dict m fuel mt with
+        | .single x => some x
+        | _ => none)
+    else
+      match localTypedefType m ty with
+      | some tt => if (tyErrs r dict m fuel tt).isEmpty then tyView r dict m fuel tt else .failed
+      | none => .other
+
+/-- `looking:` loop of `Type.resolve`: a member is dropped when an earlier kept member is `Equal`;
+for identityref members that is pointer equality of `IdentityBase` (two nil bases are equal). -/
+def dedupMembers : List (Option DEntry) → List (Option DEntry)
+  | [] => []
+  | x :: rest =>
+    x :: (dedupMembers rest).filter fun y =>
+      match x, y with
+      | some a, some b => !(a.key == b.key)
+      | none, none => false
+      | _, _ => true
+
+/-- Bound on the typedef chains followed (the generated ones are shorter). -/
+def tyFuel : Nat := 8
+
+/-- The leaf and leaf-list statements that become top-level nodes of `m`'s entry: its own, and those
+of the top-level groupings of `m` that a top-level `uses` names without prefix. -/
+def topNodes (m : Mod) : List Stmt :=
+  let own := m.stmt.all "leaf" ++ m.stmt.all "leaf-list"
+  let used := (m.stmt.all "uses").flatMap fun u =>
+    match (m.stmt.all "grouping").find? (·.arg == u.arg) with
+    | some g => g.all "leaf" ++ g.all "leaf-list"
+    | none => []
+  own ++ used
+
+/-- The modules and submodules held in `ms.Modules` / `ms.SubModules` (an unrevisioned module that
+a revision superseded is in neither). -/
+def tableMods (r : Registry) : List Mod := r.distinctModules ++ r.distinctSubs
+
+/-- Top-level nodes of every module and submodule in the tables whose type is an identityref or a
+union (directly or through typedefs of the same root): (root `name@revision`, node name, the
+identityref members of the resolved type — one for an identityref, the de-duplicated members for a
+union, one `none` for a type that did not resolve —, the errors of the type), as `ToEntry(root)`
+resolves them.  `Process` itself gets there (and reports the errors) only when `process` had none. -/
+def identityrefLeaves (r : Registry) (dict : Dict) : List (String × String × List (Option DEntry) × List Err) :=
+  (tableMods r).flatMap fun m =>
+    (topNodes m).filterMap fun l =>
+      match l.one? "type" with
+      | none => none
+      | some ty =>
+        let errs := tyErrs r dict m tyFuel ty
+        match tyView r dict m tyFuel ty with
+        | .other => none
+        | .single x => some (m.fullName, l.arg, [x], errs)
+        | .union ms => some (m.fullName, l.arg, dedupMembers ms, errs)
+        | .failed => some (m.fullName, l.arg, [none], errs)
 
 /-- `resolveTypedefs` (last step of `process`), as far as identities are concerned: the errors of
-the top-level typedefs whose type is an identityref, for every loaded module and submodule. -/
+the top-level typedefs of everything that was parsed (the typedef dictionary is filled by the AST
+builder and keeps the typedefs of superseded modules). -/
 def typedefErrs (r : Registry) (dict : Dict) : List Err :=
   r.mods.flatMap fun m =>
-    (m.stmt.all "typedef").filterMap fun td =>
+    (m.stmt.all "typedef").flatMap fun td =>
       match td.one? "type" with
-      | some tt =>
-        if tt.arg == "identityref" then
-          match identityrefBase r dict m tt with
-          | .error e => some e
-          | .ok _ => none
-        else none
-      | none => none
+      | some tt => tyErrs r dict m tyFuel tt
+      | none => []
 
 def run (o : Oracle) (r : Registry) : Outcome :=
   match linkAll o r with
@@ -371,11 +444,10 @@ def run (o : Oracle) (r : Registry) : Outcome :=
 /-- The errors `Process` returns, as far as identities are concerned: those of `process`
 (`resolveIdentities`, then `resolveTypedefs`), or, when there are none, those of the identityref
 leaves (second stage: `ToEntry` + `GetErrors`). -/
-def processErrs (r : Registry) (res : Result) (leaves : List (String × String × Except Err DEntry)) : List Err :=
+def processErrs (r : Registry) (res : Result)
+    (leaves : List (String × String × List (Option DEntry) × List Err)) : List Err :=
   let stage1 := res.errs ++ typedefErrs r res.dict
-  if stage1.isEmpty then
-    leaves.filterMap fun (_, _, x) => match x with | .ok _ => none | .error e => some e
-  else stage1
+  if stage1.isEmpty then leaves.flatMap (·.2.2.2) else stage1
 
 /-! ## Loading -/
 
